@@ -855,18 +855,61 @@ def install(eng, check_tags=None):
             e = vo.f["e"]
         else:
             raise Unsupported("handler table value is not a set")
+        # views of the replaced slot keep denoting the old set object: detach them
+        for oid, ho in list(st.heap.items()):
+            if ho.kind == "hview" and ho.f["map"] == base.oid:
+                if z3.eq(simp(ho.f["key"]), simp(k)):
+                    st.heap[oid] = HObj("sset", None, {"e": z3.Select(o.f["sets"], k), "kind": "Callback"})
+                elif smt.feasible(st.pc + [ho.f["key"] == k]):
+                    raise Unsupported("handler-table slot replaced while a view of a possibly equal key is live")
         o.f["has"] = z3.Store(o.f["has"], k, z3.BoolVal(True))
         o.f["sets"] = z3.Store(o.f["sets"], k, e)
         return ok(st, None)
     eng.hooks["setitem"] = h_setitem
 
+    def set_contents(eng_, st, v):
+        """ObjSet term of a set-like value (handler-table view, symbolic set, concrete set), None otherwise."""
+        o = st.heap.get(v.oid) if isinstance(v, VRef) else None
+        if o is None:
+            return None
+        if o.kind == "hview":
+            return z3.Select(st.heap[o.f["map"]].f["sets"], o.f["key"])
+        if o.kind == "sset":
+            return o.f["e"]
+        if o.kind == "cset":
+            e = z3.EmptySet(ObjS)
+            for x in o.f["items"]:
+                e = z3.SetAdd(e, box(eng_, st, x))
+            return e
+        return None
+
+    def set_binop(eng_, st, op, a, b):
+        ea, eb = set_contents(eng_, st, a), set_contents(eng_, st, b)
+        if ea is None or eb is None or not (st.heap[a.oid].kind in ("hview", "sset") or st.heap[b.oid].kind in ("hview", "sset")):
+            return None
+        fn = {ast.Sub: z3.SetDifference, ast.BitOr: z3.SetUnion, ast.BitAnd: z3.SetIntersect}.get(type(op))
+        if fn is None:
+            return None
+        return VRef(st.alloc(HObj("sset", None, {"e": fn(ea, eb), "kind": "Callback"})))
+    eng.hooks["binop"] = set_binop
+
     def iter_to_seq(eng_, st, it):
         o = st.heap.get(it.oid) if isinstance(it, VRef) else None
-        if o is not None and o.kind == "sset":
+        if o is not None and o.kind in ("sset", "hview"):
             eng_.assumptions_used.add("A-SETITER: iterating a set visits each member exactly once (order arbitrary): enum(S)")
-            return VSeq(enum_f(o.f["e"]), parse_ty(f"obj[{o.f.get('kind') or 'Callback'}]"))
+            return VSeq(enum_f(set_contents(eng_, st, it)), parse_ty(f"obj[{o.f.get('kind') or 'Callback'}]"))
         return None
     eng.hooks["iter_to_seq"] = iter_to_seq
+
+    def live_iter(eng_, st, it):
+        """Python raises RuntimeError when a set is resized while it is being iterated: for a loop over a live set the
+        loop rule adds the obligation that its contents at every back edge are the contents at loop entry."""
+        o = st.heap.get(it.oid) if isinstance(it, VRef) else None
+        if o is None or o.kind not in ("sset", "hview"):
+            return None
+        e0 = set_contents(eng_, st, it)
+        return lambda s_now: set_contents(eng_, s_now, it) == e0
+    eng.hooks["live_iter"] = live_iter
 
     # ---- havoc targets used in `modifies` -------------------------------------------------------------------
     prev_havoc = eng.hooks["havoc"]
